@@ -87,6 +87,15 @@ func (v *Vue) evalInclude(ctx VueContext, node *html.Node, vars map[string]any, 
 	// include of itself would recurse without ever reaching the depth limit.
 	childCtx := ctx.WithTemplate(name)
 
+	// A root <template v-once> marks the whole component: like any other marked
+	// element it is emitted by the first include of a render only. (evalTemplate
+	// unwraps the tag, so evaluate never gets to see its v-once.)
+	if len(compDom) > 0 {
+		if root := compDom[0]; root.Type == html.ElementNode && root.Data == "template" && helpers.HasAttr(root, "v-once") && v.onceSeen(ctx, root) {
+			return nil, nil
+		}
+	}
+
 	// Validate and process template tag
 	processedDom, err := v.evalTemplate(childCtx, compDom, ctx.stack.EnvMap(), depth+1)
 	if err != nil {
